@@ -63,7 +63,7 @@ class Ob(object):
                  flags=None, timeout=None, solver='cadical', mem=False, kf=None,
                  replay='gcc', bounds=None, expect_fail=None, group=None,
                  remove_bodies=None, nondet_static=False, cover=None,
-                 objbits=None, units=None, kfwhole=None):
+                 objbits=None, units=None, kfwhole=None, memgb=3):
         self.name = name
         self.harness = harness
         self.func = func
@@ -82,6 +82,7 @@ class Ob(object):
         self.nondet_static = nondet_static
         self.objbits = objbits
         self.kfwhole = kfwhole    # key: the whole obligation is a listed finding
+        self.memgb = memgb        # expected peak memory of the query, for the scheduler
         self.units = list(units or [])   # extra real translation units, e.g. 'lib/date-core.c'
         # filled in by the runner
         self.kfmode = None      # None | ('EXCL', key...) | ('ONLY', key)
@@ -393,6 +394,7 @@ class Ctx(object):
         r.witness = None
         r.unwind_ok = True
         bad = []
+        unknown = []
         for pr in results:
             pid = pr.get('property', '')
             desc = pr.get('description', '')
@@ -406,10 +408,10 @@ class Ctx(object):
             if st == 'SUCCESS':
                 continue
             if st != 'FAILURE':
-                # ERROR / UNKNOWN: the solver gave up (memory limit, abort); never a verdict
-                r.status = 'inconclusive'
-                r.detail = 'cbmc reports status %s for %s (solver out of memory or aborted)' % (st, pid)
-                return
+                # ERROR / UNKNOWN: no verdict for this property (solver gave up, or cbmc stopped
+                # after other properties failed); decided below
+                unknown.append((pid, st))
+                continue
             if '.no-body.' in pid:
                 r.status = 'broken'
                 r.detail = 'harness incomplete: %s' % desc
@@ -419,6 +421,12 @@ class Ctx(object):
                 bad.append((pid, desc, pr))
                 continue
             bad.append((pid, desc, pr))
+        if unknown and not bad:
+            # never a verdict: memory limit, abort
+            r.status = 'inconclusive'
+            r.detail = 'cbmc reports status %s for %s and %d more (solver out of memory or aborted)' % (
+                unknown[0][1], unknown[0][0], len(unknown) - 1)
+            return
         real = [(a, b, pr) for a, b, pr in bad if '.unwind.' not in a and 'recursion' not in a]
         if not r.unwind_ok and not real:
             # either the bound is too small or the loop does not terminate:
@@ -627,13 +635,29 @@ def run_property(prop, tier, seed, make_obs, level_note, assumptions, stubs=None
         if budget:
             obs = budget_order(obs, seed)
 
+        # queries that are known to need much memory declare it (Ob.memgb); no more than RAM_GB worth
+        # of declared memory runs at a time, so that the kernel's OOM killer never decides a query
+        ram = float(os.environ.get('VERIF_RAM_GB', 48))
+        cond = threading.Condition()
+        used = [0.0]
+
         def run_within_budget(ob):
             if budget and time.time() - ctx.t0 > budget:
                 r = Result()
                 r.status = 'skipped'
                 r.detail = 'not started inside the budget of %ds' % budget
                 return r
-            return ctx.run_ob(ob)
+            need = min(float(ob.memgb), ram)
+            with cond:
+                while used[0] + need > ram and used[0] > 0:
+                    cond.wait()
+                used[0] += need
+            try:
+                return ctx.run_ob(ob)
+            finally:
+                with cond:
+                    used[0] -= need
+                    cond.notify_all()
         done = 0
         with concurrent.futures.ThreadPoolExecutor(max_workers=NCPU) as ex:
             futs = {ex.submit(run_within_budget, ob): ob for ob in obs}
